@@ -61,6 +61,9 @@ def check_C01(K, prop, tier, seed, t0):
         ("triples", dict(CFGS="U_C01_triples", MAXLEN=n)),
         ("simple", dict(CFGS="U_C01_simple", MAXLEN=2 if q else 3)),
     ]
+    if not q:
+        legs += [("quads", dict(CFGS="U_C01_quads", MAXLEN=4, MOD=2, SEED=seed)),
+                 ("depth3", dict(CFGS="U_C01_depth3", MAXLEN=4, MOD=3, SEED=seed))]
     fns = [(lambda nm=nm, p=p: K.run_gen_leg(prop, nm, p, workers=4, threads=4)) for nm, p in legs]
     fns.append(lambda: K.run_trace_leg(prop, "T-c01", "c01", 300 if q else 20000, seed, shards=6))
     fns.append(lambda: K.run_trace_leg(prop, "T-corpus", "corpus", 4000 if q else 80000, seed, shards=4))
